@@ -114,11 +114,13 @@ type chanHandler struct {
 
 // nextMessage wait for one message and puts it to the incoming channel
 func (c *wsConn) nextMessage() {
+	vpoint(c, "rd.next.pre")
 	c.resetReadDeadline()
 	msgType, r, err := c.conn.NextReader()
 	if err != nil {
 		c.errLk.Lock()
 		c.incomingErr = err
+		vpoint(c, "rd.err", "err", err.Error())
 		c.errLk.Unlock()
 		close(c.incoming)
 		return
@@ -126,10 +128,12 @@ func (c *wsConn) nextMessage() {
 	if msgType != websocket.BinaryMessage && msgType != websocket.TextMessage {
 		c.errLk.Lock()
 		c.incomingErr = errors.New("unsupported message type")
+		vpoint(c, "rd.err", "err", "unsupported message type")
 		c.errLk.Unlock()
 		close(c.incoming)
 		return
 	}
+	vpoint(c, "rd.msg.pre")
 	select {
 	case c.incoming <- r:
 	case <-c.exiting:
@@ -142,6 +146,8 @@ func (c *wsConn) nextMessage() {
 func (c *wsConn) nextWriter(cb func(io.Writer)) {
 	c.writeLk.Lock()
 	defer c.writeLk.Unlock()
+	vpoint(c, "wl.enter", "w", "resp")
+	defer vpoint(c, "wl.exit", "w", "resp")
 
 	wcl, err := c.conn.NextWriter(websocket.TextMessage)
 	if err != nil {
@@ -160,6 +166,8 @@ func (c *wsConn) nextWriter(cb func(io.Writer)) {
 func (c *wsConn) sendRequest(req request) error {
 	c.writeLk.Lock()
 	defer c.writeLk.Unlock()
+	vpoint(c, "wl.enter", "w", "req", "method", req.Method, "id", req.ID)
+	defer vpoint(c, "wl.exit", "w", "req", "method", req.Method, "id", req.ID)
 
 	if debugTrace {
 		log.Debugw("sendRequest", "req", req.Method, "id", req.ID)
@@ -207,6 +215,7 @@ func (c *wsConn) handleOutChans() {
 			}
 
 			registration := val.Interface().(outChanReg)
+			vpoint(c, "fwd.reg", "chid", registration.chID, "id", registration.reqID)
 
 			caseToID = append(caseToID, registration.chID)
 			cases = append(cases, reflect.SelectCase{
@@ -227,9 +236,11 @@ func (c *wsConn) handleOutChans() {
 				}
 			})
 
+			vpoint(c, "fwd.reg.done", "chid", registration.chID)
 			continue
 		case 1: // exiting channel
 			if !ok {
+				vpoint(c, "fwd.exit")
 				// exiting channel closed - signals closed connection
 				//
 				// We're not closing any channels as we're on receiving end.
@@ -245,6 +256,7 @@ func (c *wsConn) handleOutChans() {
 			// Output channel closed, cleanup, and tell remote that this happened
 
 			id := caseToID[chosen-internal]
+			vpoint(c, "fwd.close", "chid", id)
 
 			n := len(cases) - 1
 			if n > 0 {
@@ -273,6 +285,7 @@ func (c *wsConn) handleOutChans() {
 		}
 
 		// forward message
+		vpoint(c, "fwd.val", "chid", caseToID[chosen-internal])
 		rp, err := json.Marshal([]param{{v: reflect.ValueOf(caseToID[chosen-internal])}, {v: val}})
 		if err != nil {
 			log.Errorw("marshaling params for sendRequest failed", "err", err)
@@ -286,6 +299,7 @@ func (c *wsConn) handleOutChans() {
 			Params:  rp,
 		}); err != nil {
 			log.Warnf("sendRequest failed: %s", err)
+			vpoint(c, "fwd.exit")
 			return
 		}
 	}
@@ -293,6 +307,7 @@ func (c *wsConn) handleOutChans() {
 
 // handleChanOut registers output channel for forwarding to client
 func (c *wsConn) handleChanOut(ch reflect.Value, req interface{}) error {
+	vpoint(c, "chout.reg.pre", "id", req)
 	c.spawnOutChanHandlerOnce.Do(func() {
 		go c.handleOutChans()
 	})
@@ -324,6 +339,7 @@ func (c *wsConn) handleChanOut(ch reflect.Value, req interface{}) error {
 //	contexts correctly (cancelling when async functions are no longer is use)
 func (c *wsConn) handleCtxAsync(actx context.Context, id interface{}) {
 	<-actx.Done()
+	vpoint(c, "ctxasync.done", "id", id)
 
 	rp, err := json.Marshal([]param{{v: reflect.ValueOf(id)}})
 	if err != nil {
@@ -374,6 +390,7 @@ func (c *wsConn) cancelCtx(req frame) {
 	defer c.handlingLk.Unlock()
 
 	cf, ok := c.handling[id]
+	vpoint(c, "cancel.recv", "id", id, "found", ok)
 	if ok {
 		cf()
 	}
@@ -403,6 +420,7 @@ func (c *wsConn) handleChanMessage(frame frame) {
 
 	c.chanHandlersLk.Lock()
 	hnd, ok := c.chanHandlers[chid]
+	vpoint(c, "chanh.val", "chid", chid, "found", ok)
 	if !ok {
 		c.chanHandlersLk.Unlock()
 		log.Errorf("xrpc.ch.val: handler %d not found", chid)
@@ -437,6 +455,7 @@ func (c *wsConn) handleChanClose(frame frame) {
 
 	c.chanHandlersLk.Lock()
 	hnd, ok := c.chanHandlers[chid]
+	vpoint(c, "chanh.close", "chid", chid, "found", ok)
 	if !ok {
 		c.chanHandlersLk.Unlock()
 		log.Errorf("xrpc.ch.val: handler %d not found", chid)
@@ -457,6 +476,7 @@ func (c *wsConn) handleResponse(frame frame) {
 	c.inflightLk.Lock()
 	req, ok := c.inflight[frame.ID]
 	c.inflightLk.Unlock()
+	vpoint(c, "resp.lookup", "id", frame.ID, "found", ok)
 	if !ok {
 		log.Error("client got unknown ID in response")
 		return
@@ -470,23 +490,28 @@ func (c *wsConn) handleResponse(frame frame) {
 			return
 		}
 
+		vpoint(c, "chanh.add.pre", "id", frame.ID, "chid", chid)
 		chanCtx, chHnd := req.retCh()
 
 		c.chanHandlersLk.Lock()
 		c.chanHandlers[chid] = &chanHandler{cb: chHnd}
+		vpoint(c, "chanh.add", "chid", chid, "id", frame.ID)
 		c.chanHandlersLk.Unlock()
 
 		go c.handleCtxAsync(chanCtx, frame.ID)
 	}
 
+	vpoint(c, "resp.deliver.pre", "id", frame.ID)
 	req.ready <- clientResponse{
 		Jsonrpc: frame.Jsonrpc,
 		Result:  frame.Result,
 		ID:      frame.ID,
 		Error:   frame.Error,
 	}
+	vpoint(c, "resp.deliver", "id", frame.ID)
 	c.inflightLk.Lock()
 	delete(c.inflight, frame.ID)
+	vpoint(c, "inflight.del", "id", frame.ID)
 	c.inflightLk.Unlock()
 }
 
@@ -519,6 +544,7 @@ func (c *wsConn) handleCall(ctx context.Context, frame frame) {
 
 		c.handlingLk.Lock()
 		c.handling[frame.ID] = cancel
+		vpoint(c, "handling.add", "id", frame.ID)
 		c.handlingLk.Unlock()
 
 		done = func(keepctx bool) {
@@ -528,10 +554,12 @@ func (c *wsConn) handleCall(ctx context.Context, frame frame) {
 			if !keepctx {
 				cancel()
 				delete(c.handling, frame.ID)
+				vpoint(c, "handling.done", "id", frame.ID)
 			}
 		}
 	}
 
+	vpoint(c, "call.spawn", "id", frame.ID, "method", frame.Method)
 	go c.handler.handle(ctx, req, nextWriter, rpcError, done, c.handleChanOut)
 }
 
@@ -556,6 +584,7 @@ func (c *wsConn) handleFrame(ctx context.Context, frame frame) {
 }
 
 func (c *wsConn) closeInFlight() {
+	vpoint(c, "closeinflight.pre")
 	c.inflightLk.Lock()
 	for id, req := range c.inflight {
 		req.ready <- clientResponse{
@@ -568,6 +597,7 @@ func (c *wsConn) closeInFlight() {
 		}
 	}
 	c.inflight = map[interface{}]clientRequest{}
+	vpoint(c, "closeinflight")
 	c.inflightLk.Unlock()
 
 	c.handlingLk.Lock()
@@ -575,13 +605,16 @@ func (c *wsConn) closeInFlight() {
 		cancel()
 	}
 	c.handling = map[interface{}]context.CancelFunc{}
+	vpoint(c, "closehandling")
 	c.handlingLk.Unlock()
 
 }
 
 func (c *wsConn) closeChans() {
+	vpoint(c, "closechans.pre")
 	c.chanHandlersLk.Lock()
 	defer c.chanHandlersLk.Unlock()
+	defer vpoint(c, "closechans")
 
 	for chid := range c.chanHandlers {
 		hnd := c.chanHandlers[chid]
@@ -589,6 +622,7 @@ func (c *wsConn) closeChans() {
 		hnd.lk.Lock()
 
 		delete(c.chanHandlers, chid)
+		vpoint(c, "chanh.closeall", "chid", chid)
 
 		c.chanHandlersLk.Unlock()
 
@@ -605,6 +639,7 @@ func (c *wsConn) setupPings() func() {
 	}
 
 	c.conn.SetPongHandler(func(appData string) error {
+		vpoint(c, "pong.recv")
 		select {
 		case c.pongs <- struct{}{}:
 		default:
@@ -614,6 +649,7 @@ func (c *wsConn) setupPings() func() {
 	conn := c.conn
 	c.conn.SetPingHandler(func(appData string) error {
 		// treat pings as pongs - this lets us register server activity even if it's too busy to respond to our pings
+		vpoint(c, "ping.recv")
 		select {
 		case c.pongs <- struct{}{}:
 		default:
@@ -637,9 +673,11 @@ func (c *wsConn) setupPings() func() {
 			select {
 			case <-time.After(c.pingInterval):
 				c.writeLk.Lock()
+				vpoint(c, "wl.enter", "w", "ping")
 				if err := c.conn.WriteMessage(websocket.PingMessage, []byte{}); err != nil {
 					log.Errorf("sending ping message: %+v", err)
 				}
+				vpoint(c, "wl.exit", "w", "ping")
 				c.writeLk.Unlock()
 			case <-stop:
 				return
@@ -662,25 +700,32 @@ func (c *wsConn) tryReconnect(ctx context.Context) bool {
 	}
 
 	// connection dropped unexpectedly, do our best to recover it
+	vpoint(c, "reconnect.begin")
 	c.closeInFlight()
 	c.closeChans()
 	c.incoming = make(chan io.Reader) // listen again for responses
+	vpoint(c, "redial.spawn")
 	go func() {
 		c.stopPings()
 
 		attempts := 0
 		var conn *websocket.Conn
 		for conn == nil {
+			vpoint(c, "redial.sleep.pre", "attempt", attempts)
 			time.Sleep(c.reconnectBackoff.next(attempts))
+			vpoint(c, "redial.dial.pre", "attempt", attempts)
 			if ctx.Err() != nil {
+				vpoint(c, "redial.abort")
 				return
 			}
 			var err error
 			if conn, err = c.connFactory(); err != nil {
 				log.Debugw("websocket connection retry failed", "error", err)
 			}
+			vpoint(c, "redial.dial", "ok", err == nil)
 			select {
 			case <-ctx.Done():
+				vpoint(c, "redial.abort")
 				return
 			default:
 			}
@@ -688,15 +733,19 @@ func (c *wsConn) tryReconnect(ctx context.Context) bool {
 		}
 
 		c.writeLk.Lock()
+		vpoint(c, "wl.enter", "w", "swap")
 		c.conn = conn
 		c.errLk.Lock()
 		c.incomingErr = nil
+		vpoint(c, "redial.swap")
 		c.errLk.Unlock()
 
 		c.stopPings = c.setupPings()
 
+		vpoint(c, "wl.exit", "w", "swap")
 		c.writeLk.Unlock()
 
+		vpoint(c, "redial.reader")
 		go c.nextMessage()
 	}()
 
@@ -716,12 +765,14 @@ func (c *wsConn) readFrame(ctx context.Context, r io.Reader) {
 		// reconnect completes fail fast instead of being written to a dead conn
 		c.errLk.Lock()
 		c.incomingErr = err
+		vpoint(c, "rd.readerr", "err", err.Error())
 		c.errLk.Unlock()
 		c.readError <- xerrors.Errorf("reading frame into a buffer: %w", err)
 		return
 	}
 
 	c.frameExecQueue <- buf
+	vpoint(c, "rd.queue", "n", len(buf))
 	if len(c.frameExecQueue) > 2*cap(c.frameExecQueue)/3 { // warn at 2/3 capacity
 		log.Warnw("frame executor queue is backlogged", "queued", len(c.frameExecQueue), "cap", cap(c.frameExecQueue))
 	}
@@ -734,11 +785,13 @@ func (c *wsConn) frameExecutor(ctx context.Context) {
 	for {
 		select {
 		case <-ctx.Done():
+			vpoint(c, "exec.exit")
 			return
 		case buf := <-c.frameExecQueue:
 			var frame frame
 			if err := json.Unmarshal(buf, &frame); err != nil {
 				log.Warnw("failed to unmarshal frame", "error", err)
+				vpoint(c, "exec.bad", "why", "json")
 				// todo send invalid request response
 				continue
 			}
@@ -747,11 +800,14 @@ func (c *wsConn) frameExecutor(ctx context.Context) {
 			frame.ID, err = normalizeID(frame.ID)
 			if err != nil {
 				log.Warnw("failed to normalize frame id", "error", err)
+				vpoint(c, "exec.bad", "why", "id")
 				// todo send invalid request response
 				continue
 			}
 
+			vpoint(c, "exec.pop", "method", frame.Method, "id", frame.ID, "isresult", frame.Result != nil, "iserror", frame.Error != nil)
 			c.handleFrame(ctx, frame)
+			vpoint(c, "exec.done")
 		}
 	}
 }
@@ -771,6 +827,8 @@ func (c *wsConn) handleWsConn(ctx context.Context) {
 	c.pongs = make(chan struct{}, 1)
 
 	c.registerCh = make(chan outChanReg)
+	defer vpoint(c, "exit.done")
+	vpoint(c, "main.start")
 	defer close(c.exiting)
 
 	// ////
@@ -820,6 +878,7 @@ func (c *wsConn) handleWsConn(ctx context.Context) {
 			err := c.incomingErr
 			c.errLk.Unlock()
 
+			vpoint(c, "main.incoming", "ok", ok, "err", err != nil)
 			if ok {
 				go c.readFrame(ctx, r)
 				break
@@ -836,16 +895,19 @@ func (c *wsConn) handleWsConn(ctx context.Context) {
 			}
 		case rerr := <-c.readError:
 			action = "read-error"
+			vpoint(c, "main.readerr")
 
 			log.Debugw("websocket error", "error", rerr, "lastAction", action, "time", time.Since(start))
 			if !c.tryReconnect(ctx) {
 				return // failed to reconnect
 			}
 		case <-ctx.Done():
+			vpoint(c, "main.ctxdone")
 			log.Debugw("context cancelled", "error", ctx.Err(), "lastAction", action, "time", time.Since(start))
 			return
 		case req := <-c.requests:
 			action = fmt.Sprintf("send-request(%s,%v)", req.req.Method, req.req.ID)
+			vpoint(c, "main.req", "id", req.req.ID, "method", req.req.Method)
 
 			c.writeLk.Lock()
 			if req.req.ID != nil { // non-notification
@@ -853,6 +915,7 @@ func (c *wsConn) handleWsConn(ctx context.Context) {
 				hasErr := c.incomingErr != nil
 				c.errLk.Unlock()
 				if hasErr { // No conn?, immediate fail
+					vpoint(c, "main.failfast", "id", req.req.ID)
 					req.ready <- clientResponse{
 						Jsonrpc: "2.0",
 						ID:      req.req.ID,
@@ -866,10 +929,13 @@ func (c *wsConn) handleWsConn(ctx context.Context) {
 				}
 				c.inflightLk.Lock()
 				c.inflight[req.req.ID] = req
+				vpoint(c, "inflight.add", "id", req.req.ID)
 				c.inflightLk.Unlock()
 			}
 			c.writeLk.Unlock()
+			vpoint(c, "write.req.pre", "id", req.req.ID, "method", req.req.Method)
 			serr := c.sendRequest(req.req)
+			vpoint(c, "write.req", "id", req.req.ID, "method", req.req.Method, "ok", serr == nil)
 			if serr != nil {
 				log.Errorf("sendReqest failed (Handle me): %s", serr)
 			}
@@ -883,11 +949,13 @@ func (c *wsConn) handleWsConn(ctx context.Context) {
 						Message: fmt.Sprintf("sendRequest: %s", serr),
 					}
 				}
+				vpoint(c, "main.notifdone", "ok", serr == nil)
 				req.ready <- resp
 			}
 
 		case <-c.pongs:
 			action = "pong"
+			vpoint(c, "main.pong")
 
 			c.resetReadDeadline()
 		case <-timeoutCh:
@@ -896,10 +964,14 @@ func (c *wsConn) handleWsConn(ctx context.Context) {
 				continue
 			}
 
+			vpoint(c, "main.timeout")
+			vpoint(c, "wl.enter.pre", "w", "tclose")
 			c.writeLk.Lock()
+			vpoint(c, "wl.enter", "w", "tclose")
 			if err := c.conn.Close(); err != nil {
 				log.Warnw("timed-out websocket close error", "error", err)
 			}
+			vpoint(c, "wl.exit", "w", "tclose")
 			c.writeLk.Unlock()
 			log.Errorw("Connection timeout", "remote", c.conn.RemoteAddr(), "lastAction", action)
 			// The server side does not perform the reconnect operation, so need to exit
@@ -909,7 +981,9 @@ func (c *wsConn) handleWsConn(ctx context.Context) {
 			// The client performs the reconnect operation, and if it exits it cannot start a handleWsConn again, so it does not need to exit
 			continue
 		case <-c.stop:
+			vpoint(c, "main.stop")
 			c.writeLk.Lock()
+			vpoint(c, "wl.enter", "w", "close")
 			cmsg := websocket.FormatCloseMessage(websocket.CloseNormalClosure, "")
 			if err := c.conn.WriteMessage(websocket.CloseMessage, cmsg); err != nil {
 				log.Warn("failed to write close message: ", err)
@@ -917,6 +991,7 @@ func (c *wsConn) handleWsConn(ctx context.Context) {
 			if err := c.conn.Close(); err != nil {
 				log.Warnw("websocket close error", "error", err)
 			}
+			vpoint(c, "wl.exit", "w", "close")
 			c.writeLk.Unlock()
 			return
 		}
